@@ -387,7 +387,7 @@ func checkC17(c *Case, r *Rec) error {
 					}
 					doc := string(st.Conform[pi])
 					outDoc := lp.p.Sanitize(doc)
-					if hasEmptyFragmentURL(doc) {
+					if hasEmptyFragmentURL(doc) || hasMarkupCharsInRawText(doc) {
 						// known finding D38 (C07 / C04): an empty fragment is not written back
 						r.Excluded("e_not_asserted_on_documents_with_an_empty_fragment_url")
 					} else if _, err := sameModuloForced(m, doc, outDoc); err != nil {
